@@ -44,7 +44,8 @@ PROPERTIES["C12"] = dict(
     ],
 )
 
-INFER_FILES = ["inference/zz_verif_c05.go", "inference/zz_verif_c05l2.go", "inference/zz_verif_c06.go", "inference/zz_verif_registry.go"]
+INFER_FILES = ["inference/zz_verif_c05.go", "inference/zz_verif_c05l2.go", "inference/zz_verif_c06.go", "inference/zz_verif_c04.go", "inference/zz_verif_registry.go",
+               "annotation::annotation/zz_verif_export.go"]
 
 PROPERTIES["C05"] = dict(
     explanation="symx executes the inference engine's own observe* functions (L1) and ObservePackage/buildPkgInferenceMap/buildFromSingleFullTrigger on real FullTrigger values (L2) "
@@ -148,5 +149,24 @@ PROPERTIES["C10"] = dict(
              quick=dict(params=dict(ENTRIES=2)), thorough=dict(params=dict(ENTRIES=3)), args=dict(sample_every=499)),
         dict(pkg="inference", files=INFER_FILES, entry="Harness_C10_Binding",
              quick=dict(params=dict(S=3, N=3)), thorough=dict(params=dict(S=4, N=4)), args=dict(sample_every=499)),
+    ],
+)
+
+PROPERTIES["C04"] = dict(
+    explanation="symx treats the iteration order of every Go map as a choice point (n! orders) and the order in which dependency facts arrive as a choice. Each kernel is executed twice inside "
+                "one path with independent orders and the insertion-ordered inferred map (whose Pairs sequence determines the gob bytes of the exported fact) / the exported nolint ranges must be "
+                "identical; scalar values stay symbolic and are decided by the solver.",
+    bounds=dict(quick="K2: 2 annotated sites (fields / package variables, shallow+deep); K3: 2-3 controlled triggers under one controller; K4: two dependency facts from 1 constraint each over 4 sites",
+                thorough="K2: 2-3 annotated sites; K3: 2-4 triggers; K4: <=2 constraints each"),
+    outside=["goroutine scheduling and channel arrival order in function.run (C16's machinery)", "GOMAXPROCS", "the gob encoder itself",
+             "map iteration inside AST-walking code (duplicateFullTriggersFromContractedFunctionsToCallers, affiliation, ...) - not yet encoded"],
+    assumptions=COMMON_ASSUMPTIONS + ["a native run cannot choose map iteration order: counterexamples are confirmed natively by repeating the run (the two replays inside one run use the runtime's random orders)"],
+    runs=[
+        dict(pkg="inference", files=INFER_FILES, entry="Harness_C04_K2", map_order=True,
+             quick=dict(params=dict(ENTRIES=2)), thorough=dict(params=dict(ENTRIES=3)), args=dict(sample_every=199)),
+        dict(pkg="inference", files=INFER_FILES, entry="Harness_C04_K3", map_order=True,
+             quick=dict(params=dict(TRIGGERS=3)), thorough=dict(params=dict(TRIGGERS=4)), args=dict(sample_every=1)),
+        dict(pkg="inference", files=INFER_FILES, entry="Harness_C04_K4",
+             quick=dict(params=dict(SP=2, NP=1)), thorough=dict(params=dict(SP=2, NP=2)), args=dict(sample_every=499)),
     ],
 )
